@@ -995,7 +995,18 @@ impl Gen {
             self.oracle(h, r, p);
         }
         let caller = *self.rng.pick(&["liquidator", "liquidator", "stranger", victim]);
+        // keepers must stay able to liquidate while trading is paused (C07 / C14): one attempt in six is made
+        // with the engine paused by its pauser, on whichever liquidation path the position is on
+        let pause_around = self.rng.chance(1, 6) && !h.last.eng.paused;
+        if pause_around {
+            let pauser = h.last.eng.pauser.clone();
+            h.step(Op::Engine { sender: pauser, msg: eng::ExecuteMsg::SetPause { pause: true }, funds: 0 }, r);
+        }
         let st = self.liquidate(h, r, caller, v, victim, 0);
+        if pause_around && self.rng.chance(3, 4) {
+            let pauser = h.last.eng.pauser.clone();
+            h.step(Op::Engine { sender: pauser, msg: eng::ExecuteMsg::SetPause { pause: false }, funds: 0 }, r);
+        }
         // same-block follow-ups (C16) and a repeat liquidation
         if st.out.ok && self.rng.chance(1, 2) {
             match self.rng.below(3) {
